@@ -63,6 +63,8 @@ type Stats struct {
 	CapHits     int64
 	Regions     int64
 	Merges      int64
+	FastImplied int64
+	FastForks   int64
 }
 
 type Explorer struct {
@@ -94,12 +96,14 @@ type Explorer struct {
 	NoFork bool // concrete replay mode: never query, follow the model
 	SolverTimeoutMs int
 	pathsOnSolver   int
+	fast            *fastState
+	FastOn, FastAudit bool
 }
 
 var X *Explorer
 
 func NewExplorer(timeoutMs int) *Explorer {
-	return &Explorer{S: NewSolver(timeoutMs), ConcCap: 64, MaxSteps: 400000, DepthLimit: 2000,
+	return &Explorer{FastOn: true, S: NewSolver(timeoutMs), ConcCap: 64, MaxSteps: 400000, DepthLimit: 2000,
 		FuncsSeen: map[string]bool{}, KnownHit: map[string]bool{}, SolverTimeoutMs: timeoutMs}
 }
 
@@ -126,6 +130,8 @@ func (x *Explorer) BeginPath(item WorkItem) {
 	x.varSeq = map[string]int{}
 	x.depth, x.maxDepth = 0, 0
 	x.GlobalWrites = nil
+	x.fast = newFastState()
+	x.fast.On = x.FastOn
 	if !x.NoFork {
 		x.S.Send("(push 1)\n")
 	}
@@ -175,6 +181,7 @@ func (x *Explorer) assertPC(t *Term) {
 	if x.NoFork {
 		return
 	}
+	x.fast.onAssert(t)
 	n := x.P.Ref(t)
 	x.flushDefs()
 	line := "(assert " + n + ")\n"
@@ -287,6 +294,21 @@ func (x *Explorer) Branch(c *Term, site uint32) bool {
 		x.trail = append(x.trail, Dec{int64(b2u(b)), site})
 		return b
 	}
+	kind, verdict, fname, tset, fset := x.fast.decide(c)
+	if kind == 1 {
+		x.St.FastImplied++
+		x.St.Decisions--
+		if x.FastAudit && !x.inPrefix() {
+			neg := c
+			if verdict {
+				neg = BNot(c)
+			}
+			if r, _ := x.query(neg); r != Unsat {
+				panic(engineError{"fast-path audit: implied verdict contradicted by the solver"})
+			}
+		}
+		return verdict
+	}
 	if x.cursor < len(x.prefix) {
 		d := x.prefix[x.cursor]
 		if d.Site != site {
@@ -309,9 +331,26 @@ func (x *Explorer) Branch(c *Term, site uint32) bool {
 	} else {
 		other = c
 	}
-	r, m := x.query(other)
-	if r == Sat {
-		x.pushItem(int64(b2u(!mv)), site, m)
+	if kind == 2 {
+		// both sides feasible, variable independent of all others: flip it in the current model
+		x.St.FastForks++
+		oset := tset
+		if mv {
+			oset = fset
+		}
+		m2 := copyModel(x.ev.M)
+		m2[fname] = uint64(oset.first())
+		if x.FastAudit {
+			if r, _ := x.query(other); r != Sat {
+				panic(engineError{"fast-path audit: fork verdict contradicted by the solver"})
+			}
+		}
+		x.pushItem(int64(b2u(!mv)), site, m2)
+	} else {
+		r, m := x.query(other)
+		if r == Sat {
+			x.pushItem(int64(b2u(!mv)), site, m)
+		}
 	}
 	x.cursor++ // keep cursor == len(trail) beyond the prefix
 	x.trail = append(x.trail, Dec{int64(b2u(mv)), site})
@@ -343,6 +382,25 @@ func (x *Explorer) Concretise(t *Term, site uint32) uint64 {
 		x.trail = append(x.trail, Dec{int64(v), site})
 		return v
 	}
+	var fvals []uint64
+	var fsets []bitset256
+	fname := ""
+	if x.fast.On {
+		if sp := x.fast.support(t); sp.n == 1 {
+			vi := x.fast.info(sp.name)
+			fvals, fsets = x.fast.valueSets(t, sp.name, vi.dom)
+			if len(fvals) == 1 {
+				x.St.FastImplied++
+				x.St.Decisions--
+				return fvals[0]
+			}
+			if vi.mixed || len(fvals) == 0 {
+				fvals = nil
+			} else {
+				fname = sp.name
+			}
+		}
+	}
 	if x.cursor < len(x.prefix) {
 		d := x.prefix[x.cursor]
 		if d.Site != site {
@@ -354,6 +412,21 @@ func (x *Explorer) Concretise(t *Term, site uint32) uint64 {
 		return uint64(d.V)
 	}
 	v0 := x.ev.Eval(t)
+	if fvals != nil {
+		x.St.FastForks++
+		for i, v := range fvals {
+			if v == v0 {
+				continue
+			}
+			m2 := copyModel(x.ev.M)
+			m2[fname] = uint64(fsets[i].first())
+			x.pushItem(int64(v), site, m2)
+		}
+		x.cursor++
+		x.trail = append(x.trail, Dec{int64(v0), site})
+		x.assertPC(eq(v0))
+		return v0
+	}
 	excl := []*Term{BNot(eq(v0))}
 	n := 1
 	for {
@@ -382,11 +455,21 @@ func (x *Explorer) Concretise(t *Term, site uint32) uint64 {
 func (x *Explorer) KWay(conds []*Term, site uint32) int {
 	live := 0
 	last := -1
+	dead := make([]bool, len(conds))
 	for i, c := range conds {
-		if !isFalse(c) {
-			live++
-			last = i
+		if isFalse(c) {
+			dead[i] = true
+			continue
 		}
+		if !x.NoFork {
+			if dec, sat, _ := x.fastFeasible(c); dec && !sat {
+				dead[i] = true
+				x.St.FastImplied++
+				continue
+			}
+		}
+		live++
+		last = i
 	}
 	if live == 1 {
 		return last
@@ -422,7 +505,19 @@ func (x *Explorer) KWay(conds []*Term, site uint32) int {
 		panic(engineError{"KWay: model satisfies no alternative"})
 	}
 	for i, c := range conds {
-		if i == chosen || isFalse(c) {
+		if i == chosen || dead[i] {
+			continue
+		}
+		if dec, sat, m2 := x.fastFeasible(c); dec {
+			if sat {
+				x.St.FastForks++
+				if x.FastAudit {
+					if r, _ := x.query(c); r != Sat {
+						panic(engineError{"fast-path audit: k-way verdict contradicted by the solver"})
+					}
+				}
+				x.pushItem(int64(i), site, m2)
+			}
 			continue
 		}
 		r, m := x.query(c)
@@ -434,6 +529,29 @@ func (x *Explorer) KWay(conds []*Term, site uint32) int {
 	x.trail = append(x.trail, Dec{int64(chosen), site})
 	x.assertPC(conds[chosen])
 	return chosen
+}
+
+// fastFeasible decides PC ∧ c by the unary-domain fast path when possible:
+// returns (decided, sat, model).
+func (x *Explorer) fastFeasible(c *Term) (bool, bool, Model) {
+	if !x.fast.On {
+		return false, false, nil
+	}
+	sp := x.fast.support(c)
+	if sp.n != 1 {
+		return false, false, nil
+	}
+	vi := x.fast.info(sp.name)
+	T := vi.dom.and(x.fast.truthSet(c, sp.name))
+	if T.empty() {
+		return true, false, nil
+	}
+	if vi.mixed {
+		return false, false, nil
+	}
+	m2 := copyModel(x.ev.M)
+	m2[sp.name] = uint64(T.first())
+	return true, true, m2
 }
 
 func (x *Explorer) inPrefix() bool { return !x.NoFork && x.cursor < len(x.prefix) }
